@@ -490,7 +490,10 @@ func (p *Packer) Unpack(r io.Reader, dst string) error {
 
 		// Handle symlinks, directories, non-regular files
 		if info.IsSymlink() {
-			if ok, err := p.validSymlink(dst, header.Name, header.Linkname); ok {
+			// Validate against the path the link is really created at: a rooted
+			// entry name ("/a/l") has its leading slash stripped for extraction,
+			// but would be taken as an absolute location by validSymlink.
+			if ok, err := p.validSymlink(dst, info.Path, header.Linkname); ok {
 				// Create the symlink.
 				if err = os.Symlink(header.Linkname, info.Path); err != nil {
 					return fmt.Errorf("failed creating symlink (%q -> %q): %w",
